@@ -352,11 +352,13 @@ class EngineBase(PathMgr):
                 # JSON-like container or opaque object: list/tuple/dict by class id, else True
                 cid = smt.cls_of(r)
                 L, T, D = (builtin_class(n).cid for n in ('list', 'tuple', 'dict'))
-                for n in ('list', 'tuple', 'dict'):
+                DD, SS, FS = (builtin_class(n).cid for n in ('defaultdict', 'set', 'frozenset'))
+                for n in ('list', 'tuple', 'dict', 'defaultdict', 'set', 'frozenset'):
                     self.use_class(builtin_class(n))
                 self._add_axiom(z3.Select(self.st.dlen, r) >= 0)
+                is_map = z3.Or(cid == D, cid == DD, cid == SS, cid == FS)
                 return smt.simp(z3.If(z3.Or(cid == L, cid == T), z3.Length(z3.Select(self.st.seq, r)) > 0,
-                                      z3.If(cid == D, z3.Select(self.st.dlen, r) > 0, z3.BoolVal(True))))
+                                      z3.If(is_map, z3.Select(self.st.dlen, r) > 0, z3.BoolVal(True))))
             return z3.BoolVal(True)
         # repo class: group the possible runtime classes by how they define truthiness
         groups: Dict[str, List[ClassInfo]] = {}
@@ -388,12 +390,14 @@ class EngineBase(PathMgr):
         library classes with a constant __bool__ (UNSET) merged in, classes with __len__ forked"""
         r = Val.r(v)
         cid = smt.cls_of(r)
-        for n in ('list', 'tuple', 'dict'):
+        for n in ('list', 'tuple', 'dict', 'defaultdict', 'set', 'frozenset'):
             self.use_class(builtin_class(n))
         L, T, D = (builtin_class(n).cid for n in ('list', 'tuple', 'dict'))
+        DD, SS, FS = (builtin_class(n).cid for n in ('defaultdict', 'set', 'frozenset'))
         self._add_axiom(z3.Select(self.st.dlen, r) >= 0)
         generic = z3.If(z3.Or(cid == L, cid == T), z3.Length(z3.Select(self.st.seq, r)) > 0,
-                        z3.If(cid == D, z3.Select(self.st.dlen, r) > 0, z3.BoolVal(True)))
+                        z3.If(z3.Or(cid == D, cid == DD, cid == SS, cid == FS), z3.Select(self.st.dlen, r) > 0,
+                              z3.BoolVal(True)))
         for k in self.classes:
             if k.builtin:
                 continue
